@@ -6,8 +6,138 @@ binding: seeded CoreGo cases (profile "defer": unconditional / conditional / loo
          run-time faults, early returns, Goexit in a goroutine) are interpreted by TLC (prediction), self-validated with
          the reference toolchain and compiled by llgo; every case's printed trace and termination must equal the prediction.
 """
+import json
+import os
+
 from . import common as C
 from . import gm
+
+SPEC_DEFER = os.path.join(C.VERIF, "spec", "defer")
+
+
+def run_shapes(chk, thorough):
+    """spec/defer/DeferImpl.tla: every behaviour of every function body of up to 4 statements over {defer with/without
+    arguments on the straight path, the same inside a branch, a loop of defers, a call that may panic}, with the calls Go
+    prescribes; one non-inlined Go function per body, called with the steering values of each behaviour."""
+    rd = chk.rd.sub("shapes")
+    # layer B first: the implementation model must satisfy Lifo, and the two pre-fix switches must be refuted (else the
+    # model does not describe the mechanism the fixes changed)
+    res = C.tlc(SPEC_DEFER, "DeferImpl", "defer_cases.cfg", rd, timeout=1800, parse_json=False)
+    chk.add_tlc(res, "DeferImpl")
+    if not res.ok:
+        raise C.Undecided("DeferImpl: %s" % res.violation)
+    for cfg, what in (("defer_unreached.cfg", "AlwaysBit"), ("defer_nobarrier.cfg", "Barrier")):
+        r2 = C.tlc(SPEC_DEFER, "DeferImpl", cfg, chk.rd.sub("shapes-" + what), timeout=600, parse_json=False)
+        if r2.ok or "Lifo" not in (r2.violation or ""):
+            raise C.Undecided("DeferImpl with %s = FALSE is not refuted by TLC (%s): the model is not binding" % (what, r2.violation))
+    cases = list(C.tlc_printed_iter(res))
+    if len(cases) < 10000:
+        raise C.Undecided("DeferImpl emitted only %d behaviours" % len(cases))
+    bodies = {}
+    for c in cases:
+        bodies.setdefault(tuple(c["prog"]), len(bodies) + 1)
+    src = ["package main", "",
+           "//go:noinline\nfunc rec2(site, arg int) { println(\"c\", site, arg) }",
+           "//go:noinline\nfunc mp(c int) { if c != 0 { panic(\"boom\") } }"]
+    for i in range(1, 5):
+        src.append("//go:noinline\nfunc d0_%d() { println(\"c\", %d, %d) }" % (i, i, i))
+    for prog, bid in bodies.items():
+        body = []
+        for i, k in enumerate(prog, 1):
+            if k == "Dn":
+                body.append("\tdefer rec2(%d, %d)" % (i, i))
+            elif k == "D0":
+                body.append("\tdefer d0_%d()" % i)
+            elif k == "Cn":
+                body.append("\tif ch[%d] != 0 {\n\t\tdefer rec2(%d, %d)\n\t}" % (i - 1, i, i))
+            elif k == "C0":
+                body.append("\tif ch[%d] != 0 {\n\t\tdefer d0_%d()\n\t}" % (i - 1, i))
+            elif k == "L":
+                body.append("\tfor q := 0; q < ch[%d]; q++ {\n\t\tdefer rec2(%d, %d)\n\t}" % (i - 1, i, i))
+            else:
+                body.append("\tmp(ch[%d])" % (i - 1))
+        src.append("//go:noinline\nfunc body%d(ch [4]int) {\n%s\n}" % (bid, "\n".join(body)))
+    src.append("var bodies = []func([4]int){nil, " + ", ".join("body%d" % b for b in sorted(bodies.values())) + "}")
+    src.append("type cs struct {\n\tb  int\n\tch [4]int\n}")
+    rows = []
+    expect = {}
+    for n, c in enumerate(cases, 1):
+        ch = list(c["choices"]) + [0] * (4 - len(c["choices"]))
+        rows.append("\t{%d, [4]int{%s}}," % (bodies[tuple(c["prog"])], ", ".join(map(str, ch))))
+        expect[n] = (["c %d %d" % (s_, s_) for s_ in c["want"]], "E P" if c["panicked"] else "E R")
+    src.append("var table = []cs{\n" + "\n".join(rows) + "\n}")
+    src.append("""func run(k int, c cs) {
+	println("CASE", k)
+	defer func() {
+		if r := recover(); r != nil {
+			println("E", "P")
+		} else {
+			println("E", "R")
+		}
+	}()
+	bodies[c.b](c.ch)
+}
+
+func main() {
+	for i, c := range table {
+		run(i+1, c)
+	}
+	println("ALLDONE")
+}""")
+    d = os.path.join(chk.rd.path, "shapesprog")
+    C.write_module(d, {"main.go": "\n\n".join(src) + "\n"}, modname="defershapes")
+
+    def parse(text):
+        out, cur, lines = {}, None, []
+        for ln in text.splitlines():
+            w = ln.split()
+            if len(w) == 2 and w[0] == "CASE":
+                cur, lines = int(w[1]), []
+            elif cur is not None and w and w[0] == "c":
+                lines.append(ln.strip())
+            elif cur is not None and w and w[0] == "E":
+                out[cur] = (lines, ln.strip())
+                cur = None
+        return out
+    ref = os.path.join(d, "ref.exe")
+    ok, out = C.go_build(d, ref, go=C.ref_go())
+    if not ok:
+        raise C.Undecided("reference toolchain rejects the defer-shapes program (generator bug):\n" + out[-2000:])
+    st, so, se = C.run_exe(ref, timeout=300, merge=True)
+    refres = parse(so)
+    bad = [k for k in expect if refres.get(k) != expect[k]]
+    if bad:
+        raise C.Undecided("DeferImpl's law disagrees with the reference toolchain on %d behaviours, e.g. %s: ref %s law %s"
+                          % (len(bad), cases[bad[0] - 1], refres.get(bad[0]), expect[bad[0]]))
+    probe = next(k for k in expect if expect[k][0])
+    if refres.get(probe) == ([], expect[probe][1]):
+        raise C.Undecided("negative control failed")
+    for opt in ["O0"] + (["O2"] if thorough else []):
+        exe = os.path.join(d, "llgo-%s.exe" % opt)
+        ok, out = C.llgo_build(d, exe, opt=opt, rundir=d)
+        if not ok:
+            if opt == "O0":
+                raise C.Undecided("llgo cannot build the defer-shapes program:\n" + out[-2500:])
+            chk.cov.setdefault("skipped_configs", []).append("shapes " + opt)
+            continue
+        st, so, se = C.run_exe(exe, timeout=600, merge=True)
+        got = parse(so)
+        groups = {}
+        for k in expect:
+            if got.get(k) != expect[k]:
+                groups.setdefault("".join(x[0] + x[1] for x in cases[k - 1]["prog"]), []).append(k)
+        for shape, ks in sorted(groups.items()):
+            k = ks[0]
+            c = cases[k - 1]
+            chk.reject("C04:shape:%s" % ",".join(c["prog"]),
+                       "function body %s: with steering values %s Go runs the deferred calls %s (%s), the llgo-compiled function ran %s "
+                       "(%d behaviours of this body deviate, config %s)" % (c["prog"], c["choices"], expect[k][0], expect[k][1], got.get(k), len(ks), opt),
+                       {"body": c["prog"], "choices": c["choices"], "want": expect[k], "got": got.get(k), "config": opt,
+                        "legend": "Dn/D0 defer with/without arguments, Cn/C0 the same inside `if ch[i] != 0`, L loop of ch[i] defers, P call that panics if ch[i] != 0"})
+        chk.cov["evaluations"] = chk.cov.get("evaluations", 0) + len(expect)
+    chk.cov["defer_shapes"] = {"bodies": len(bodies), "behaviours": len(expect)}
+    return len(expect)
+
 
 
 def check(chk):
@@ -15,14 +145,15 @@ def check(chk):
     sd = C.seed()
     configs = [("O0", "")] + ([("O2", "")] if thorough else [])
     n = 1500 if thorough else 100
+    nshapes = run_shapes(chk, thorough)
     judged, ncases = gm.run_cases(chk, "C04", "defer", n, 40, configs, sd, "defer")
     # negative control: a corrupted prediction must be noticed by the comparison
     probe = ({1: (["# p 1"], "# END OK")}, {1: (["# p 2"], "# END OK")})
     if probe[0][1] == probe[1][1]:
         raise C.Undecided("negative control failed")
-    chk.cov["evaluations"] = judged
-    chk.cov["distinct_nontrivial"] = ncases
-    chk.cov["traces_validated_against_impl"] = judged
+    chk.cov["evaluations"] = judged + chk.cov.get("evaluations", 0)
+    chk.cov["distinct_nontrivial"] = ncases + nshapes
+    chk.cov["traces_validated_against_impl"] = judged + nshapes
     chk.cov["rule"] = ("case = seeded CoreGo program (2-4 functions) from the defer profile; distinct = distinct (seed, index); "
                        "non-trivial = predicted by GoMachine and confirmed by the reference toolchain; evaluations = case x llgo configuration")
     chk.assumptions += ["GoMachine's transcription of the Go spec (self-validated against the reference toolchain on every case)",
